@@ -61,7 +61,7 @@ def check(ctx):
     else:
         ctx.undecided.append('%s: no result (rc=%s) %s' % (name, rc, (out + err)[-300:]))
     return ctx.finish(
-        explanation='Verus proves, on the real text of ArxmlLexer::{new,next,read_*}, count_lines and trim_byte_string, for buffers of every length: no index/slice/overflow panic, termination (decreases), the representation invariant, 1 <= line <= 1+newlines for every token and error, and progress (measure decreases on every non-EOF token). Kani and a native exhaustive enumeration cross-check the unmodified text on short inputs (bounded, listed separately). Also in the unit: the parser's line/funnel functions, verify_end_of_input, check_arxml_header (the probe terminates) and the slicing arithmetic of parse_attribute_text (attribute splitting: no out-of-range slice and termination for every byte string; its lookup/validation block is abstracted). Not covered: parse_character_data (trim_byte_string and unescape_string are under contract separately), parse_element/parse_arxml (element graph).',
+        explanation='Verus proves, on the real text of ArxmlLexer::{new,next,read_*}, count_lines and trim_byte_string, for buffers of every length: no index/slice/overflow panic, termination (decreases), the representation invariant, 1 <= line <= 1+newlines for every token and error, and progress (measure decreases on every non-EOF token). Kani and a native exhaustive enumeration cross-check the unmodified text on short inputs (bounded, listed separately). Also in the unit: the line and funnel functions of the parser, verify_end_of_input, check_arxml_header (the probe terminates) and the slicing arithmetic of parse_attribute_text (attribute splitting: no out-of-range slice and termination for every byte string; its lookup/validation block is abstracted). Not covered: parse_character_data (trim_byte_string and unescape_string are under contract separately), parse_element/parse_arxml (element graph).',
         checker_cmd='verus generated/{trim,lexer}.rs --output-json --time (regenerated from /repo working tree on every run); cargo kani --harness trim_len* --harness count_lines_len*',
         trusted_base=['Verus 0.2026.09.13 + Z3', 'Kani 0.68 + CBMC 6.11 (bounded cross-checks only)', 'extraction rules R1-R14 (DESIGN 3.3)',
                       'prelude: spec of u8::is_ascii_whitespace; verified helpers standing for slice::{iter().position, filter().count, starts_with, ends_with, ==, split}',
